@@ -4,7 +4,7 @@ import json, os
 V = os.path.dirname(os.path.dirname(os.path.abspath(__file__)))
 
 P = {
- "C01": dict(tech="differential round-trip monitor (generator -> repo writer -> repo reader and -> independent decoder written from the format specifications); conversions into sibling targets of one stem at the same time",
+ "C01": dict(tech="differential round-trip monitor (generator -> repo writer -> repo reader and -> independent decoder written from the format specifications); conversions into sibling targets of one stem at the same time, into existing targets, the empty tile set; thorough: containers beyond 4 GiB",
              text="Runtime monitoring: generated tile sets (sparse/dense, zoom gaps, 256-grid and level borders, duplicates, payload sizes around 1000 bytes, > 16384 tiles) are written with the repo's writers to all five formats and every accepted (format, compression) pair; the result is read back through the repo's reader (lookups over a superset of coordinates + streams of the advertised level boxes) and through an independent decoder; both must give exactly the source mapping and declaration. Held on the generated executions only.",
              note="Trusted: the independent decoders (harness/src/codec), brotli/flate2/rusqlite crates. MBTiles only with its four legal pairs, PMTiles with its five tile types.", ref="4/C01"),
  "C02": dict(tech="differential monitor stream-vs-lookups over a zoo of sources (5 readers x own/foreign encodings, converting reader, every pipeline operation and nestings) x exhaustive small boxes + sampled border boxes, on single- and multi-threaded runtimes; TSan flavour and >64 MiB blocks in thorough",
@@ -58,7 +58,7 @@ P.update({
  "C11": dict(tech="canonical-form model: decode/re-encode round trip of generated tiles; join model for vectortiles_update_properties with a generated CSV (merge/replace x remove_non_matching x include_id)",
              text="Runtime monitoring: (a) VectorTile::from_blob -> to_blob on tiles from the independent encoder (table duplicates/unused entries, int64/sint64/uint64 extremes, -0.0, Unicode, UNKNOWN geometry, ids to 2^64-1) must preserve the canonical content; (b) update_properties must leave other layers untouched and keep id, geometry type, geometry bytes and order of retained features, with property maps equal to the join model (lookups and streams).",
              note="CSV cell typing follows the data-file reader (bool / double / int / string).", ref="4/C11"),
- "C12": dict(level="fault_enumeration", tech="fault enumeration on the recorded write trace: TraceWriter (DataWriterTrait) -> every operation prefix + byte cuts + one failing operation -> real reader must reject or return every tile intact (and declare their compression); plus syscall level: strace log of the real file writer / `versatiles convert` (fresh path and over an existing container) replayed prefix by prefix",
+ "C12": dict(level="fault_enumeration", tech="fault enumeration on the recorded write trace: TraceWriter (DataWriterTrait) -> every operation prefix + byte cuts + one failing operation -> real reader; the real binary under file size limits (RLIMIT_FSIZE) must reject or return every tile intact (and declare their compression); plus syscall level: strace log of the real file writer / `versatiles convert` (fresh path and over an existing container) replayed prefix by prefix",
              text="Fault enumeration: for each recorded trace (both formats, all compressions, one PMTiles/versatiles trace with > 16384 tiles) every prefix of the operation sequence and byte-granular cuts of short and final operations are materialised as file images (unwritten regions = zeros) and opened with the real reader; Ok requires every source tile intact. Exhaustive per trace in the operation-prefix dimension (thinned only for the two huge traces).",
              note="Crash model: completed operations + prefix of the interrupted one, in program order.", ref="4/C12"),
 })
